@@ -31,6 +31,7 @@ MIN_REACH = {
     "contract_evals_rs_update": {"quick": 100000, "thorough": 3000000},
     "contract_evals_rc_update": {"quick": 30000, "thorough": 500000},
     "estimate_runs": {"quick": 300, "thorough": 10000},
+    "interrupted_estimates": {"quick": 10, "thorough": 150},
     "estimate_runs_beyond_1024_samples": {"quick": 3, "thorough": 30},
     "matrix_readouts_judged": {"quick": 200, "thorough": 3000},
     "ill_conditioned_samples": {"quick": 100, "thorough": 2000},
@@ -60,6 +61,12 @@ def cases(ctx):
                "min_samples": rng.choice([0, 1, 2, 5, 17]), "max_samples": rng.choice([1, 2, 3, 7, 50, 400]),
                "get": rng.choice(["stats", "samples", "samples", "mean"]), "verbosity": rng.choice([0, 0, 0, 2]),
                "sseed": rng.randint(0, 10 ** 9), "sigma": 10 ** rng.uniform(-4, 1)}
+    # the user presses Ctrl-C while the function runs: sampling stops there and what is reported are the statistics of
+    # exactly the samples drawn before
+    for i in range(ctx.pick(24, 300)):
+        yield {"type": "est", "gen": rng.choice(["noisy", "alternating", "drift"]), "rtol": rng.choice([1e-6, 0.0, 1e-3]), "tol_scale": 1.0,
+               "min_samples": rng.choice([0, 2, 5]), "max_samples": rng.choice([50, 400]), "get": rng.choice(["stats", "samples", "mean"]),
+               "verbosity": 0, "sseed": rng.randint(0, 10 ** 9), "sigma": 1.0, "interrupt_at": rng.randint(2, 40)}
     # long runs: limits beyond a thousand samples that are no round numbers, reached (tight tolerance) or nearly reached
     # (a tolerance met only after more than a thousand samples)
     for i in range(ctx.pick(8, 80)):
@@ -266,7 +273,12 @@ def run_case(ctx, case):
         g = case["gen"]
         sg = case["sigma"]
 
+        attempts = [0]
+
         def fn(scale=1.0):
+            attempts[0] += 1
+            if case.get("interrupt_at") and attempts[0] == case["interrupt_at"]:
+                raise KeyboardInterrupt()
             i = len(calls)
             if g == "constant":
                 x = 2.5
@@ -320,6 +332,10 @@ def run_case(ctx, case):
         else:
             rs = out
         n = len(calls)
+        if case.get("interrupt_at"):
+            ctx.count("interrupted_estimates")
+            if attempts[0] > case["interrupt_at"]:
+                bad.append("the function was called %d more times after the interrupt at call %d" % (attempts[0] - case["interrupt_at"], case["interrupt_at"]))
         if n > case["max_samples"]:
             bad.append("drew %d samples, limit max_samples=%d" % (n, case["max_samples"]))
         if n < 1:
@@ -332,7 +348,11 @@ def run_case(ctx, case):
                 sh.add(x)
             for msg in contracts.judge_running_statistics(rs, sh):
                 bad.append("reported statistics are not those of the drawn samples: " + msg)
-            if n < case["max_samples"]:
+            if n < case["max_samples"] and case.get("interrupt_at") and attempts[0] >= case["interrupt_at"]:
+                ctx.count("stopped_by_interrupt")
+                if rs.count != n:
+                    bad.append("after an interrupt at call %d the reported count is %r, %d samples were drawn" % (case["interrupt_at"], rs.count, n))
+            elif n < case["max_samples"]:
                 atol = case["tol_scale"] * case["rtol"]
                 if not (rs.err < case["rtol"] * abs(rs.mean) + atol):
                     bad.append("stopped after %d < max_samples=%d samples although err=%r >= rtol*|mean|+rtol*tol_scale=%r" % (
